@@ -161,6 +161,32 @@ def _mk_multi(degs, tier):
         h.ensure("middle-segments-untouched", view_eq(view(j)[2:last + 1], want_mid))
 
 
+def _mk_shift(degs, tier):
+    @proof(f"C15.jordan-split-shift[{sname(degs)}]", "C15", tier=tier, props=["C15", "C06", "C01"], funcs=["jordancurve.JordanCurve.split", "jordancurve.JordanCurve.__split_segment"], timeout=600)
+    def _(h):
+        """two parameters on the first segment and one on the last: the later cut must land in the right segment
+        (offset = number of nodes inserted before it)."""
+        j, allc, mode = build(h, degs)
+        t0, t1, t2 = h.real("t0", mode), h.real("t1", mode), h.real("t2", mode)
+        tol = Fraction(1e-6)
+        h.assume(AND(t0 > 2 * tol, t1 - t0 > 2 * tol, t1 < 1 - 2 * tol, t2 > 2 * tol, t2 < 1 - 2 * tol))
+        last = len(degs) - 1
+        with h.stubs(decasteljau_stub(h) if h.sym else {}):
+            j.split([0, last, 0], [t1, t2, t0])
+        segs = j.segments
+        h.ensure("three-more-segments", len(segs) == len(degs) + 3 and wf_structure(j))
+        a0, a1 = spec.bezier_eval(allc[0], t0), spec.bezier_eval(allc[0], t1)
+        b = spec.bezier_eval(allc[last], t2)
+        h.ensure("cuts-land-on-the-right-segments", AND(EQ(segs[0].ctrlpoints[-1][0], a0[0]), EQ(segs[0].ctrlpoints[-1][1], a0[1]),
+                                                        EQ(segs[1].ctrlpoints[-1][0], a1[0]), EQ(segs[1].ctrlpoints[-1][1], a1[1]),
+                                                        EQ(segs[last + 2].ctrlpoints[-1][0], b[0]), EQ(segs[last + 2].ctrlpoints[-1][1], b[1])))
+        want_mid = tuple(tuple(c) for c in allc[1:last])
+        h.ensure("middle-segments-untouched", view_eq(view(j)[3:last + 2], want_mid))
+        h.ensure("closing-point-preserved", AND(EQ(segs[-1].ctrlpoints[-1][0], allc[last][-1][0]), EQ(segs[-1].ctrlpoints[-1][1], allc[last][-1][1])))
+
+
+_mk_shift((1, 1, 1), "quick")
+_mk_shift((1, 1, 1, 1), "quick")
 for _degs, _idx in (((1, 1, 1), 0), ((1, 1, 1), 2), ((1, 2), 1), ((1, 1, 1, 1), 1)):
     _mk_split(_degs, _idx, 1, "quick")
 _mk_split((1, 1, 1), 1, 2, "quick")
